@@ -40,6 +40,13 @@ CLAIMED["C03"] = dict(
     note="Trusted: TLC, TLA+ Modes/SM4/GF2 (pinned by GB/T 17964 B.7 and XTS-SM4 vectors), replayer plumbing, guard pages as the only observer of out-of-slice access. Known finding D4 (HCTR partial block) classified by a dedicated alternative expectation.",
     technique="TLA+ executable specification + TLC exploration of call partitions + spec-to-code trace replay with guard pages")
 
+CLAIMED["C04"] = dict(
+    category="model_checking",
+    text="The AEAD is a TLA+ seal -> tamper -> open machine; every reply, including the rejection of each tampered input, is computed by the TLA+ transcription of SP 800-38D / SP 800-38C over the TLA+ SM4 (RFC 8998 and GB/T 36624 vectors asserted). TLC explores nonce/tag/plaintext/AAD length classes, destination arrangements (prefix, fresh, in place), constructed 16-byte nonces whose derived counter wraps 32 bits inside the message, every single-byte alteration (two masks) of nonce, AAD, ciphertext and tag for short messages and truncations; every transition is replayed with guard-paged arguments in 7 CPU configurations x 2 wrappers, checking appended bytes, preserved prefix, error and the zeroed output region.",
+    design_ref="DESIGN.md section 4, C04",
+    note="Trusted: TLC, TLA+ Aead/SM4, GF(2^128) product via a Java override cross-checked against its TLA+ definition (GF2Agree), replayer plumbing, guard pages. Tampering beyond single bytes and messages beyond 257 bytes are not explored.",
+    technique="TLA+ executable specification + TLC exploration of seal/tamper/open scenarios + spec-to-code trace replay with guard pages")
+
 NOT_BUILT = "not built yet (in progress; see DESIGN.md section 9 build order)"
 NA = {}
 
